@@ -68,9 +68,53 @@ def run(ctx: RunCtx) -> None:
         shm_mod.SHM_MIN_BATCH_BYTES = [0, 64, 512, 4096][ch.choose(4, "shm_min")]
         seg_size = HEADER_SIZE + [4096, 1024, 20_000, 200_000, 4_000_000][ch.choose(5, "seg")]
         release = ["all", "none", "alternate"][ch.choose(3, "release")]
-        sched = Scheduler(ctx.ch, ctx.log, wall_limit=60.0)
+        # line-level pre-emption inside shm.py: the allocator table has no lock and relies on the protocol's lock-step (only one
+        # side touches it at a time); a pre-emption inside allocate()/free() lets the other side in whenever that is not so
+        sched = Scheduler(ctx.ch, ctx.log, wall_limit=60.0, trace_files={shm_mod.__file__}, preempt_budget=3,
+                          horizon=[1500, 6000][ch.choose(2, "horizon")],
+                          focus_funcs=("allocate", "free", "_read_allocs", "_write_allocs"), focus_preempts=2, focus_odds=5)
         seg_c = ShmSegment.create(seg_size)
         seg_s = ShmSegment.attach(seg_c.name, seg_c.size, track=False)
+        # ---- monitor of the code's own design assumption: the allocation table has no lock, so the two sides may only
+        # touch it one at a time.  Every allocate()/free() of either side is bracketed; an operation that begins while
+        # an operation of the OTHER thread is still in progress is the root cause of whatever corruption follows, and is
+        # reported as such (with the callers of both operations) instead of its many symptoms.
+        inflight: dict[int, tuple[str, str]] = {}
+        races: list[tuple[str, str, str, str]] = []
+
+        def caller_chain() -> str:
+            import sys as _sys
+
+            f = _sys._getframe(2)
+            names = []
+            while f is not None and len(names) < 3:
+                if "/vgi_rpc/" in f.f_code.co_filename and f.f_code.co_name not in ("allocate", "free", "allocate_and_write", "release_fn",
+                                                                                     "release", "maybe_write_to_shm", "_release"):
+                    names.append(f.f_code.co_name)
+                f = f.f_back
+            return "<".join(names) or "?"
+
+        def bracket(real: Any, opname: str) -> Any:
+            def wrapped(self_: Any, *a: Any, **k: Any) -> Any:
+                cur = sched.current()
+                sid = cur.sid if cur is not None else -1
+                who = caller_chain()
+                for osid, (oop, owho) in inflight.items():
+                    if osid != sid:
+                        mine, other = (opname, who.split("<")[0]), (oop, owho.split("<")[0])
+                        is_server = cur is not None and cur.name.startswith("server")
+                        srv, cli = (mine, other) if is_server else (other, mine)
+                        races.append((f"server:{srv[0]}@{srv[1]}", f"client:{cli[0]}@{cli[1]}", who, owho))
+                inflight[sid] = (opname, who)
+                try:
+                    return real(self_, *a, **k)
+                finally:
+                    inflight.pop(sid, None)
+            return wrapped
+
+        real_alloc, real_free = shm_mod.ShmAllocator.allocate, shm_mod.ShmAllocator.free
+        shm_mod.ShmAllocator.allocate = bracket(real_alloc, "allocate")  # type: ignore[method-assign]
+        shm_mod.ShmAllocator.free = bracket(real_free, "free")  # type: ignore[method-assign]
         server = RpcServer(svc.protocol, svc.impl_cls(), server_id="srv")
         ob = Observer()
         held: list[tuple[Any, dict[str, Any]]] = []
@@ -105,8 +149,14 @@ def run(ctx: RunCtx) -> None:
                     tr = list(ob.cur or []) + [("raw-exception", type(exc).__name__, str(exc)[:200])]
                     ob.end()
                 out["traces"].append(tr)
-                sched.block(("quiesce",), 0.0, "quiesce")
-                out["allocs"].append((seg_c.allocator.num_allocs, len(held)))
+                # the region accounting needs quiescence; but a client that always waits for the server to go quiet never
+                # overlaps its next call with whatever the server still does after answering - so only wait sometimes
+                if i == len(calls) - 1 or ch.choose(2, f"quiesce{i}") == 0:
+                    sched.block(("quiesce",), 0.0, "quiesce")
+                    out["allocs"].append((seg_c.allocator.num_allocs, len(held)))
+                else:
+                    out["allocs"].append(None)
+                    ch.probe("next-call-without-waiting-for-the-server")
             out["cur"] = None
             ct.close()
 
@@ -121,6 +171,15 @@ def run(ctx: RunCtx) -> None:
             ch.probe("stream_batch_via_shm")
         conn = out.get("conn")
         site0 = f"release={release}"
+        if races:
+            srv, cli, c1, c2 = races[0]
+            ch.probe("allocator-table-touched-by-both-sides-at-once")
+            ctx.violation("C29", "allocator-race", f"{srv}|{cli}",
+                          f"the unlocked shared-memory allocation table was touched by both sides at once: {srv} and {cli} overlapped "
+                          f"(call chains {c1} / {c2}); {len(races)} overlapping operation(s) in this run; whatever follows (lost "
+                          f"update: vanished or resurrected entries) is a symptom; program {shapes}, segment {seg_size}, min "
+                          f"{shm_mod.SHM_MIN_BATCH_BYTES}; schedule {sched.sched_trace[-8:]}")
+            return
         if sched.deadlocked:
             i = out["cur"]
             ctx.violation("C29", "hang", f"{shapes[i] if i is not None else 'end'}", f"client blocked in call {i}: {sched.describe_blocked()}; "
@@ -132,7 +191,10 @@ def run(ctx: RunCtx) -> None:
                               f"call {i} {shapes[i]} over shm-pipe (segment {seg_size}, min {shm_mod.SHM_MIN_BATCH_BYTES}): {b!r:.600}\n over a "
                               f"plain pipe: {a!r:.600}\n server_exc={conn.server_exc if conn else None}")
                 return
-        for i, (n_alloc, n_held) in enumerate(out["allocs"]):
+        for i, acc in enumerate(out["allocs"]):
+            if acc is None:
+                continue
+            n_alloc, n_held = acc
             if n_alloc != n_held:
                 ctx.violation("C29", "region-leak" if n_alloc > n_held else "region-freed-while-held", f"{site0},{shapes[i].split(':')[0]}",
                               f"after call {i} ({shapes[i]}) the segment holds {n_alloc} allocations but the client holds {n_held} unreleased "
@@ -147,5 +209,7 @@ def run(ctx: RunCtx) -> None:
                 ctx.violation("C29", "live-region-overwritten", site0, f"an unreleased batch changed under the client: was {snap!r:.200} now {now!r:.200}")
                 return
     finally:
+        if "real_alloc" in locals():
+            shm_mod.ShmAllocator.allocate, shm_mod.ShmAllocator.free = real_alloc, real_free  # type: ignore[method-assign]
         shm_mod.SharedMemory, shm_mod.SHM_MIN_BATCH_BYTES = saved  # type: ignore[misc]
         rt.set_world(None)
